@@ -324,7 +324,9 @@ func c01Incremental(c c01Case, book []vPRec, ctx *vCtx) *vFailure {
 func c01CLI(c c01Case, book []vPRec, m vResolved, ctx *vCtx) *vFailure {
 	ctx.Label("cli")
 	p := vWriteFile("c01-book.yaml", c.Book.Render())
-	r := vRunApp(vInvocation{Args: []string{"--maxdepth", fmt.Sprint(c.N), "-d", p, "csv", "database-resolved"}})
+	// a configuration file with a depth of 1 is named too: the limit given on the command line must win, whatever its value
+	decoy := vWriteFile("c01-decoy.conf", "[Resolver]\nMaxDepth=1\n")
+	r := vRunApp(vInvocation{Args: []string{"--config", decoy, "--maxdepth", fmt.Sprint(c.N), "-d", p, "csv", "database-resolved"}})
 	ctx.Run(1)
 	if r.Failed {
 		return vFailf("csv database-resolved failed on an acyclic book (h_max=%d, N=%d): %s", m.HMax, c.N, r)
@@ -363,7 +365,11 @@ func c01CLI(c c01Case, book []vPRec, m vResolved, ctx *vCtx) *vFailure {
 		if strings.HasPrefix(x, "-") || x == "h" || x == "help" { // urfave/cli takes these as the help command
 			continue
 		}
-		r := vRunApp(vInvocation{Args: []string{"--maxdepth", fmt.Sprint(c.N), "-d", p, "report", "element-total", x}})
+		inv := vInvocation{Args: []string{"--config", decoy, "--maxdepth", fmt.Sprint(c.N), "-d", p, "report", "element-total", x}}
+		if len(x)%2 == 1 {
+			inv = vInvocation{Args: []string{"--config", decoy, "-d", p, "report", "element-total", x}, Env: map[string]string{"HR_MAXDEPTH": fmt.Sprint(c.N)}}
+		}
+		r := vRunApp(inv)
 		ctx.Run(1)
 		if r.Failed {
 			return vFailf("report element-total %q failed: %s", x, r)
